@@ -98,6 +98,10 @@ class Bucket:
                 microsecond=1000 * int(starttime.microsecond / 1000)
             )
         if endtime:
+            if endtime.tzinfo:
+                # Round in UTC: arithmetic on a datetime of a zone with daylight saving
+                # time is done in wall-clock time and can jump by an hour
+                endtime = endtime.astimezone(timezone.utc)
             # Rounding up here in order to ensure events aren't missed
             # second_offset and microseconds modulo required since replace() only takes microseconds up to 999999 (doesn't handle overflow)
             milliseconds = 1 + int(endtime.microsecond / 1000)
